@@ -3,7 +3,7 @@
 (*   stage 0 -> 1  a container: kind (rec / tup / map / tbl / par), component kinds    *)
 (*                 from {f64, string, bool, u8}, size 1..MaxSize (tuples from 2),      *)
 (*                 order of the names / keys (identity, reversed, rotated, ...),       *)
-(*                 tables: 1..MaxRows rows;                                            *)
+(*                 tables: a row count from Rows;                                            *)
 (*   stage 1 -> 2  one scenario on it:                                                 *)
 (*     "construct" define, then read EVERY component (and every row of a table)        *)
 (*     "read"      one valid or invalid key, on an immutable and on a mutable variable *)
@@ -21,7 +21,7 @@ EXTENDS MechStruct, TLC, Json
 CONSTANTS MaxSize,      \* records, tuples, maps: up to this many components
           RecOrd, MapOrd, TblOrd,    \* how many of the orders below are used
           TblSize, TblFull,          \* tables: up to TblSize columns; all kind vectors up to TblFull columns, pairwise distinct kinds beyond
-          MaxRows
+          Rows                       \* tables: the set of row counts (1 row: 1x1 columns; 2, 3, 4: fixed-size vectors; 5: dynamic vectors)
 
 VARIABLE cs
 
@@ -54,7 +54,7 @@ MapSet == UNION {{Con("map", [i \in 1..n |-> Val(kv[1], 20 + pi[i])], [i \in 1..
 TblKinds(n) == IF n <= TblFull THEN [1..n -> Kinds] ELSE {kd \in [1..n -> Kinds] : Injective(kd)}
 TblSet == UNION {{Con("tbl", [i \in 1..n |-> Name(pi[i])], kd,
                       [r \in 1..m |-> [i \in 1..n |-> IF kd[i] = "bool" THEN InitVal("bool", r + i) ELSE InitVal(kd[i], (r - 1) * n + i)]])
-                    : pi \in Orders(TblOrd, n), kd \in TblKinds(n), m \in 1..MaxRows} : n \in 1..TblSize}
+                    : pi \in Orders(TblOrd, n), kd \in TblKinds(n), m \in Rows} : n \in 1..TblSize}
 ParSet == {Con("par", <<PosK(1)>>, <<k>>, << <<InitVal(k, 1)>> >>) : k \in Kinds}
 
 (* ------------------------------------------------------------- scenarios *)
